@@ -8,6 +8,10 @@
                 over all orderings x NaN), U must be the correctly rounded reciprocal of S, snorm unpack clamps to [-1,1] and
                 reads the field with sign extension                                                          (T / O domains)
   integer       packInt/packUint/I3x10_1x2/U3x10_1x2/Double2x32: pure bit placement with the right extension
+  shared exp.   packF3x9_E1x5 has the shape of the RGB9E5 encoder that defines the format (OpenGL 4.6 section 8.5.2): clamp to
+                [0, (2^9-1)/2^9 * 2^16], exp_p = max(-16, floor(log2(max_c))) + 16, max_s = the mantissa quantiser applied to
+                (max_c, exp_p), exponent incremented exactly for max_s == 512, mantissas = floor(c / 2^(E-24) + 0.5) with the
+                stored E; unpackF3x9_E1x5 = field * 2^(E-24)
   small floats  packHalf*/packF2x11_1x10 apply the (opaque) scalar encoder once per component, component i <-> field i; the decoders
                 receive exactly the field; packed11/10bitToFloat return +0 / +Inf / NaN constants for the zero / Inf / NaN codes and
                 floatTo11/10bit map +-0 / Inf / NaN to those codes (partial evaluation of the term at the constant)
@@ -484,6 +488,190 @@ def small_float_cases():
     return cs
 
 
+# ---------------------------------------------------------------------------------------------------------------------
+# shared-exponent format RGB9E5 (packF3x9_E1x5): conformance of the encoder's shape with the algorithm that *defines* the format
+# (OpenGL 4.6 core, section 8.5.2 "Encoding of Special Internal Formats"), N = 9 mantissa bits, B = 15 bias, Emax = 31:
+#     c_clamped = max(0, min(sharedexp_max, c)),  sharedexp_max = (2^N - 1) / 2^N * 2^(Emax - B) = 65408
+#     max_c  = max(r, g, b);   exp_p = max(-B - 1, floor(log2(max_c))) + 1 + B
+#     max_s  = floor(max_c / 2^(exp_p - B - N) + 0.5);   exp_s = exp_p if 0 <= max_s < 2^N else exp_p + 1
+#     c_s    = floor(c_clamped / 2^(exp_s - B - N) + 0.5)
+N9, B15, EMAX = 9, 15, 31
+F39_MAX = Fraction((1 << N9) - 1, 1 << N9) * (1 << (EMAX - B15))
+
+
+def _peel_conv(f):
+    x = f
+    while x.op in ('slice', 'zext', 'trunc') and (x.op != 'slice' or x.args[1] == 0):
+        x = x.args[0]
+    return x.args[0] if x.op == 'fptoui' else None
+
+
+def _floor_half(q):
+    """q == floor(X + 0.5) -> X"""
+    if q is None or q.op != 'fn' or q.args[0] != 'floor':
+        return None
+    a = q.args[1]
+    if a.op != 'fadd':
+        return None
+    for i in (0, 1):
+        if a.args[i].op == 'const' and tm.fval(a.args[i]) == 0.5:
+            return a.args[1 - i]
+    return None
+
+
+def exp2_norm(pc, p):
+    """2^(q + c) -> 2^c * 2^q and 2^(-q) -> 1 / 2^q for the exp2 atoms of p (real identities; c the constant term of the exponent)"""
+    from laneflow import poly as P
+    for a in list(p.atoms()):
+        k = P.atom_key(a)
+        if k[0] == 'inv':
+            q = k[1][1]
+            qn = exp2_norm(pc, q)
+            if qn != q:
+                p = p.subst(a, pc.inv(qn))
+            continue
+        if k[0] != 'fn:exp2':
+            continue
+        q = k[1][1]
+        c = q.t.get((), Fraction(0))
+        q0 = q - P.Poly.const(c)
+        if q0.is_zero():
+            continue
+        coef = Fraction(2) ** int(c) if c.denominator == 1 else Fraction(2.0 ** float(c))
+        if q0.t[min(q0.t)] < 0:
+            rep = pc.inv(P.Poly.atom(('fn:exp2', ('P', -q0))))
+        else:
+            rep = P.Poly.atom(('fn:exp2', ('P', q0)))
+        if c == 0 and rep == P.Poly.var(a):
+            continue
+        p = p.subst(a, rep.scale(coef))
+    return p
+
+
+def shared_exponent_cases():
+    from laneflow import poly as P
+    v3, wt = G.vec(3, 'float'), G.scalar('uint32')
+    kp = K('packF3x9_E1x5', [Par('o', wt, False), Par('v', v3)], '*o = packF3x9_E1x5(*v);', CFG)
+    ku = K('unpackF3x9_E1x5', [Par('o', v3, False), Par('p', wt)], '*o = unpackF3x9_E1x5(*p);', CFG)
+    name = 'packF3x9_E1x5'
+
+    def jp(ctx):
+        it = ctx.fn(kp)
+        word = I.out_lane(it, 'o', 0, 4)
+        res = []
+        pc = P.PCtx()
+
+        def ob(sub, st, detail, t=None):
+            res.append(R.ob('%s.%s' % (name, sub), 'shared_exponent', st, detail, where=R.where_of(it, t) if (t is not None and st != R.PROVED) else None, kernel=kp.source()))
+        E = _peel_conv(tm.slice_(word, 27, 5))
+        if E is None:
+            ob('exponent', R.UNDECIDED, 'bits 27..31 are not a float->uint conversion: %s' % tm.show(tm.slice_(word, 27, 5), 4))
+            return res
+        # per-component quantiser
+        comps = []
+        for i in range(3):
+            Q = _peel_conv(tm.slice_(word, 9 * i, 9))
+            X = _floor_half(Q)
+            if X is None or X.op != 'fdiv' or not (X.args[1].op == 'fn' and X.args[1].args[0] in ('exp2',)):
+                ob('mantissa%d' % i, R.UNDECIDED, 'field %d is not uint(floor(c / 2^e + 0.5)): %s' % (i, tm.show(tm.slice_(word, 9 * i, 9), 5)))
+                return res
+            C, ex = X.args[0], X.args[1].args[1]
+            comps.append((Q, C, ex))
+            # the scale is 2^(exp_s - B - N) with the very exponent that is stored
+            d = pc.fpoly(ex) - pc.fpoly(E)
+            okd = d == P.Poly.const(-(B15 + N9))
+            ob('mantissa%d.scale' % i, R.PROVED if okd else (R.REFUTED if d.is_const() else R.UNDECIDED),
+               'mantissa %d = floor(c / 2^(E - %d) + 0.5) with E the stored exponent' % (i, B15 + N9) if okd else 'mantissa %d is scaled by 2^(E %+s) instead of 2^(E - %d)' % (i, P.show_poly(d), B15 + N9), Q)
+            # the clamp
+            spec = S.gclamp(S.lane('v', v3, i), S.const(32, 0.0), S.const(32, float(F39_MAX))).t
+            r = O.equivalent(C, spec, nan=False) if O.in_fragment(C) else None
+            consts = sorted({tm.fval(x) for x in tm.walk(C) if x.op == 'const' and x.w == 32})
+            ob('clamp%d' % i, R.PROVED if r is True else (R.REFUTED if r else R.UNDECIDED),
+               'component %d is clamped to [0, %s] = [0, (2^9-1)/2^9 * 2^(31-15)]' % (i, float(F39_MAX)) if r is True else
+               'component %d is not clamped to [0, %s] (constants in the clamp: %s)%s' % (i, float(F39_MAX), consts, ': differs in case [%s]' % r[1] if r else ''), C)
+        # exponent selection
+        if E.op != 'select':
+            ob('exponent', R.UNDECIDED, 'stored exponent is not a selection exp_p / exp_p + 1: %s' % tm.show(E, 4))
+            return res
+        cond, Ehi, EP = E.args
+        if pc.fpoly(Ehi) - pc.fpoly(EP) != P.Poly.const(1):
+            if pc.fpoly(EP) - pc.fpoly(Ehi) == P.Poly.const(1):
+                cond, Ehi, EP = tm.not_(cond), EP, Ehi
+            else:
+                ob('exponent', R.UNDECIDED, 'the two candidate exponents do not differ by one: %s' % tm.show(E, 4))
+                return res
+        logs = [x for x in tm.walk(EP) if x.op == 'fn' and x.args[0] == 'log2']
+        if len(logs) != 1:
+            ob('exponent', R.UNDECIDED, 'expected one log2 in the preliminary exponent, found %d' % len(logs))
+            return res
+        M = logs[0].args[1]
+        Cs = [S.E(c[1]) for c in comps]
+        specM = S.gmax(Cs[0], S.gmax(Cs[1], Cs[2])).t
+        r = O.equivalent(M, specM, nan=False) if O.in_fragment(M) else None
+        ob('max_component', R.PROVED if r is True else (R.REFUTED if r else R.UNDECIDED),
+           'log2 is taken of max(r, g, b) of the clamped components' if r is True else 'log2 argument is not the maximum of the three clamped components%s' % (': case [%s]' % r[1] if r else ''), M)
+        fl = S.E(tm.fn('floor', [logs[0]], 32))
+        specEP = (S.gmax(S.const(32, -(B15 + 1)), fl) + 1.0 + float(B15)).t
+        st, detail = S.compare(EP, specEP, pc=pc, nan=False)
+        ob('preliminary_exponent', st, 'exp_p = max(-16, floor(log2(max_c))) + 1 + 15' if st == R.PROVED else 'exp_p differs from max(-16, floor(log2(max_c))) + 1 + 15: ' + detail, EP)
+        # max_s must be the component quantiser applied to (max_c, exp_p): the bump decision and the mantissas round the same way
+        floors = [x for x in tm.walk(cond) if x.op == 'fn' and x.args[0] == 'floor']
+        tops = [x for x in floors if not any(x is not y and x in set(tm.walk(y)) for y in floors)]
+        if len(tops) != 1:
+            ob('max_s', R.UNDECIDED, 'expected one rounded quantity in the exponent decision, found %d' % len(tops))
+            return res
+        MS = tops[0]
+        want = tm.substitute(comps[0][0], {comps[0][1]: M, E: EP})
+        x1, x2 = exp2_norm(pc, pc.fpoly(MS.args[1])), exp2_norm(pc, pc.fpoly(want.args[1]))
+        d = P.reduce_inv(x1 - x2)
+        same = MS is want or d.is_zero()
+        # the difference is a real one when it only involves max_c and 2^exp_p (both sides are the same kind of expression)
+        allowed = {a for a in (x2.atoms() | set().union(*[P.atom_key(a)[1][1].atoms() for a in x2.atoms() if P.atom_key(a)[0] == 'inv']))}
+        real = not same and d.atoms() <= allowed | {a for a in d.atoms() if P.atom_key(a)[0] == 'inv' and P.atom_key(a)[1][1].atoms() <= allowed}
+        ob('max_s', R.PROVED if same else (R.REFUTED if real else R.UNDECIDED),
+           'max_s = floor(max_c / 2^(exp_p - 24) + 0.5): the same quantiser as the mantissas, applied to (max_c, exp_p)' if same else
+           'the exponent decision rounds max_c differently from the mantissas: decision uses %s, the mantissa quantiser at (max_c, exp_p) is %s' % (tm.show(MS, 6), tm.show(want, 6)), MS)
+        # the decision itself: true exactly for max_s == 2^N among the integers 0..2^N
+        bad = []
+        for kk in range((1 << N9) + 1):
+            v = tm.fold_float(tm.substitute(cond, {MS: tm.fconst(32, float(kk))}))
+            if v.op != 'const':
+                bad = None
+                break
+            if bool(v.args[0]) != (kk == (1 << N9)):
+                bad.append(kk)
+        if bad is None:
+            ob('bump_decision', R.UNDECIDED, 'the decision does not fold to a constant for a constant max_s: %s' % tm.show(cond, 5))
+        else:
+            ob('bump_decision', R.PROVED if not bad else R.REFUTED,
+               'exponent is incremented exactly when max_s == 512 (evaluated for max_s = 0..512)' if not bad else 'the exponent decision is wrong for max_s in %s' % bad[:8], cond)
+        return res
+
+    def ju(ctx):
+        it = ctx.fn(ku)
+        res = []
+        pc = P.PCtx()
+        p = tm.inp('p', 0, 32)
+        for i in range(3):
+            u = I.out_lane(it, 'o', 4 * i, 4)
+            oid = 'unpackF3x9_E1x5.comp%d' % i
+            ok = False
+            detail = tm.show(u, 5)
+            if u.op == 'fmul':
+                for a, b in ((u.args[0], u.args[1]), (u.args[1], u.args[0])):
+                    if a.op == 'uitofp' and b.op == 'fn' and b.args[0] == 'exp2':
+                        mant = a.args[0]
+                        m_ok = tm.zext(tm.slice_(p, 9 * i, 9), mant.w) is mant
+                        # exponent: float(bits 27..31) - 24
+                        ex = pc.fpoly(b.args[1])
+                        ee = P.Poly.atom(('uitofp', ('T', tm.zext(tm.slice_(p, 27, 5), 32)))) - P.Poly.const(B15 + N9)
+                        ok = m_ok and ex == ee
+                        detail = 'mantissa %s, exponent %s' % (tm.show(mant, 3), P.show_poly(ex))
+            res.append(R.ob(oid, 'shared_exponent', R.PROVED if ok else R.UNDECIDED, 'component %d = bits %d..%d * 2^(bits 27..31 - 24)' % (i, 9 * i, 9 * i + 8) if ok else detail, kernel=ku.source()))
+        return res
+    return [R.Case(name, [kp], jp), R.Case('unpackF3x9_E1x5', [ku], ju)]
+
+
 def template_cases():
     """templated packUnorm<uintType>(vec<L,float>) / packSnorm / unpack*: same rules with the width of the integer type"""
     cs = []
@@ -521,6 +709,7 @@ def cases(tier):
         cs += int_cases(suffix, wordT, compT, n)
     cs += bitfield_int_cases()
     cs += small_float_cases()
+    cs += shared_exponent_cases()
     cs += template_cases()
     cs += canaries()
     return cs
@@ -547,7 +736,7 @@ EXPLANATION = ('static: every pack/unpack function of glm/packing.hpp and glm/gt
                'clamp bounds (compared over all orderings) and the dequantisation constant tied to the field width, sign/zero extension of integer fields, once-per-component application of the '
                'opaque half / 11-bit / 10-bit codecs, and the constants returned for the zero / Inf / NaN codes (partial evaluation of the term at the code)')
 ASSUMPTIONS = ['field widths are taken from the documented format names (Unorm3x10_1x2 = 10,10,10,2 ...), component 0 first',
-               'nearest-code / half-step accuracy, monotonicity and the shared-exponent numerics of F3x9_E1x5 are numeric statements and are not decided',
+               'nearest-code / half-step accuracy and monotonicity are numeric statements and are not decided; for F3x9_E1x5 the encoder is compared with the algorithm that defines the format (shape and constants), the one-mantissa-step bound that follows from it is not mechanised',
                'toFloat16/toFloat32 are kept opaque here (C07 is not applicable)']
 TRUSTED = ['clang/LLVM 14', 'tools/irtool.cc (noinline marking of the scalar codecs)', 'laneflow term normaliser, ordering domain']
 LEVEL = 'other'
